@@ -41,6 +41,7 @@ func runInflow(s *simrt.Sim) {
 	faults := simrt.Mode() != "nofault"
 	s.SetSticky([]int{2, 4, 10}[tp.Draw(3, "sched.strategy")])
 	s.SetSelectOrder(tp.Draw(3, "selectorder"))
+	s.SetSelectYield(tp.Chance(1, 2, "selectyield"))
 	s.SetMapOrder(tp.Draw(3, "maporder"))
 	e := newH2(s, "C33")
 	seg := 0
@@ -254,6 +255,9 @@ func (e *h2eng) upload(u *upload, violator bool, violKind int) {
 		by := int64(1 + tp.Draw(8, "violate.by"))
 		padOnly := tp.Chance(1, 3, "violate.pad_only")
 		for {
+			// windows are read and charged under the write lock: the order of the client's
+			// accounting is the order of the frames on the wire
+			e.wmu.Lock()
 			w := e.srvStreamWin[id]
 			if e.srvConnWin < w {
 				w = e.srvConnWin
@@ -268,7 +272,8 @@ func (e *h2eng) upload(u *upload, violator bool, violKind int) {
 				u.sentBeforeViolation = u.sent
 				e.srvStreamWin[id] -= over
 				e.srvConnWin -= over
-				e.writeData(id, nil, int(over), false)
+				e.writeDataLocked(id, nil, int(over), false)
+				e.wmu.Unlock()
 				e.violationSent, e.violationAt = true, e.s.Now()
 				return
 			}
@@ -278,7 +283,8 @@ func (e *h2eng) upload(u *upload, violator bool, violKind int) {
 				u.sentBeforeViolation = u.sent
 				e.srvStreamWin[id] -= over
 				e.srvConnWin -= over
-				e.writeData(id, p.ReqBody[u.sent:u.sent+int(over)], 0, false)
+				e.writeDataLocked(id, p.ReqBody[u.sent:u.sent+int(over)], 0, false)
+				e.wmu.Unlock()
 				e.violationSent, e.violationAt = true, e.s.Now()
 				return
 			}
@@ -290,12 +296,15 @@ func (e *h2eng) upload(u *upload, violator bool, violKind int) {
 				chunk = w - 100 // leave a window a padding-only frame can exceed
 			}
 			if chunk <= 0 || remaining-chunk < 1 {
+				e.wmu.Unlock()
 				break // this body cannot exceed anything: carry on as a respectful client
 			}
 			e.srvStreamWin[id] -= chunk
 			e.srvConnWin -= chunk
 			u.fc += chunk
-			if err := e.writeData(id, p.ReqBody[u.sent:u.sent+int(chunk)], 0, false); err != nil {
+			err := e.writeDataLocked(id, p.ReqBody[u.sent:u.sent+int(chunk)], 0, false)
+			e.wmu.Unlock()
+			if err != nil {
 				return
 			}
 			u.sent += int(chunk)
@@ -322,13 +331,20 @@ func (e *h2eng) upload(u *upload, violator bool, violKind int) {
 		}
 		need := int64(chunk + pad)
 		ok := func() bool { return e.srvStreamWin[id] >= need && e.srvConnWin >= need }
-		if !ok() {
-			e.s.Probe("h2_upload_waited_for_window")
-			simrt.WaitUntil(func() bool { return ok() || e.streamOver(id) })
-		}
-		if e.streamOver(id) {
-			u.gaveUp = true
-			return
+		for {
+			if !ok() {
+				e.s.Probe("h2_upload_waited_for_window")
+				simrt.WaitUntil(func() bool { return ok() || e.streamOver(id) })
+			}
+			if e.streamOver(id) {
+				u.gaveUp = true
+				return
+			}
+			e.wmu.Lock()
+			if ok() {
+				break // charged and written under the lock, see above
+			}
+			e.wmu.Unlock()
 		}
 		e.srvStreamWin[id] -= need
 		e.srvConnWin -= need
@@ -337,7 +353,9 @@ func (e *h2eng) upload(u *upload, violator bool, violKind int) {
 		if chunk == 0 {
 			e.s.Probe("h2_padding_only_frame")
 		}
-		if err := e.writeData(id, p.ReqBody[u.sent:u.sent+chunk], pad, end); err != nil {
+		err := e.writeDataLocked(id, p.ReqBody[u.sent:u.sent+chunk], pad, end)
+		e.wmu.Unlock()
+		if err != nil {
 			return
 		}
 		u.sent += chunk
